@@ -149,6 +149,9 @@ def c01(run, model):
 
 def c02(run, model):
     _mol_run(run, model, {"K5", "K7", "C02"}, 0, 0, exhaustive=(4, 5), completeness=True, extra_stream=near_misses)
+    # molfile descriptions of a molecule and of a sibling differing in one isotope / radical statement
+    import text_checks
+    text_checks.c02_descriptions(run, model)
 
 
 def _near_and_big(rng):
@@ -280,7 +283,7 @@ SPECS = {
                 note=NOTE_MODEL, design_ref="DESIGN.md 4.1",
                 rule="same stream + exhaustive small scope grouped by string against brute-force isomorphism classes; strings of relistings compared byte for byte; "
                      "+ molfile descriptions: V2000 / V3000 texts of one molecule renumbered, relisted, bonds reversed, random spelling knobs, 2..999 atoms (three-digit atom numbers); non-trivial as for C13"),
-    "C02": dict(fn=c02, level="proof", components=["K5", "K7", "K8"], assumptions=MOL_ASSUME,
+    "C02": dict(fn=c02, level="proof", components=["K5", "K7", "K8", "K1", "K2"], assumptions=MOL_ASSUME,
                 claim="Theorem tucan_complete: for every oracle returning a bijection (H1), two molecules with the same emitted string are related by a colour-preserving isomorphism "
                       "(SameMol); corollary of the character-level round trip ref_parse(tucan m) ~ m. Unbounded. The falsifier groups every molecule of the run by string and compares with "
                       "independent isomorphism oracles in both directions.",
@@ -397,7 +400,7 @@ def replay(run, model, rp):
     if not hit:
         print("replay file names no failing input: ", json.dumps(rp.get("broken")))
         return 1
-    if (hit.get("case") or {}).get("kind") in ("C05-text", "C01-text"):
+    if (hit.get("case") or {}).get("kind") in ("C05-text", "C01-text", "C02-text"):
         import text_checks
         if text_checks.replay_text(run, model, hit):
             print("VIOLATION property=%s replay=%s" % (rp["property"], "(replayed)"))
